@@ -19,6 +19,7 @@
 (*         last byte changed  iEmpty an empty file  (all four: readable     *)
 (*         files that are fine as plaintext and not authentic as .wenc)     *)
 (*  output oO creatable path  oBad path in a directory that does not exist *)
+(*         oLong a 300-character file name (no file system takes it)       *)
 (*         oFull a path that opens but cannot take a byte (/dev/full: the  *)
 (*         disk-full case) - encrypt and decrypt must fail, verify writes  *)
 (*         nothing and is unaffected                                       *)
@@ -42,7 +43,7 @@ ModeOf(t) == CASE t \in {"e", "le", "en", "leAbbr"} -> "e" [] t \in {"d", "ld", 
                [] t = "V" -> "V" [] t = "h" -> "h"
 Tokens == ModeTok \cup {"n", "iF", "iE", "iMissing", "iLong", "iLen122", "iLen123", "iProc", "iNoArg", "iBadC", "iBadH", "iTam", "iEmpty", "oO", "oBad", "kK", "kW", "kShort", "kBadChar",
                         "kNoPad", "kOnePad", "kLong", "kHigh", "kMidPad", "kPadChar", "kEmpty", "c0", "c2", "c4", "c5", "c100", "c256", "c260", "cNeg", "cHuge", "cabc", "cEmpty",
-                        "h0", "h1", "h2", "h3", "h256", "hNeg", "hHuge", "iEmptyArg", "oEmptyArg", "oFull", "kAbbr", "cAbbr", "cWrapNeg", "c2p32p1", "c2p64p1", "x", "stray"}
+                        "h0", "h1", "h2", "h3", "h256", "hNeg", "hHuge", "iEmptyArg", "oEmptyArg", "oFull", "oLong", "kAbbr", "cAbbr", "cWrapNeg", "c2p32p1", "c2p64p1", "x", "stray"}
 S0 == [mode |-> "u", ct |-> FALSE, ht |-> FALSE, in |-> "none", out |-> "none", key |-> "none", quiet |-> FALSE, err |-> FALSE, may |-> FALSE]
 
 \* one token; the first offending token ends the parse (err)
@@ -57,7 +58,7 @@ Step(s, t) ==
   ELSE IF t = "iLen122" THEN [s EXCEPT !.in = "F"]                      \* the longest path whose default output name fits
   ELSE IF t = "iProc" THEN [s EXCEPT !.in = "R"]
   ELSE IF t \in {"iBadC", "iBadH", "iTam", "iEmpty"} THEN [s EXCEPT !.in = "X"]
-  ELSE IF t \in {"iMissing", "iNoArg", "iEmptyArg", "oBad", "oEmptyArg", "kShort", "kBadChar", "kNoPad", "kOnePad", "kLong", "kHigh", "kMidPad", "kPadChar", "kEmpty",
+  ELSE IF t \in {"iMissing", "iNoArg", "iEmptyArg", "oBad", "oEmptyArg", "oLong", "kShort", "kBadChar", "kNoPad", "kOnePad", "kLong", "kHigh", "kMidPad", "kPadChar", "kEmpty",
                   "c5", "c100", "c256", "c260", "cNeg", "cHuge", "cWrapNeg", "c2p32p1", "c2p64p1", "h3", "h256", "hNeg", "hHuge", "x"}
        THEN [s EXCEPT !.err = TRUE]
   ELSE IF t = "oO" THEN [s EXCEPT !.out = "O"]
